@@ -27,7 +27,7 @@ import (
 	"github.com/tigerwill90/fox"
 )
 
-const rule = "cases = (panic value in 13 kinds incl. wrapped http.ErrAbortHandler and net.OpError variants) x (response progress: nothing, informational header, final header, 101, partial body, flushed, one chunk streamed through ReadFrom / io.Copy from a source that then panics) x (request context live / cancelled / past its deadline, in turn) x (handler kind: route, inner route middleware, route reached by ignoring a trailing slash, route of a router mounted inside a route, no-route, no-method, options) " +
+const rule = "cases = (panic value in 13 kinds incl. wrapped http.ErrAbortHandler and net.OpError variants) x (response progress: nothing, informational header, final header, 101, partial body, flushed, one chunk streamed through ReadFrom / io.Copy from a source that then panics, one chunk copied through the underlying writer's own ReadFrom from a source that then fails) x (request context live / cancelled / past its deadline, in turn) x (handler kind: route, inner route middleware, route reached by ignoring a trailing slash, route of a router mounted inside a route, no-route, no-method, options) " +
 	"x (credential header names in canonical, lower-case, upper-case and mixed capitalisation set directly in the header map, plus ordinary headers); the product is enumerated completely; " +
 	"plus panics inside Updates and View functions after every prefix of a base sequence, after every single step and after every ordered pair of the steps that add, empty or remove method roots, and panics raised by middleware constructors during 8 write entry points; distinct by the tuple; non-trivial always"
 
@@ -83,6 +83,39 @@ func (u *under) FlushError() error {
 	return nil
 }
 
+// underRF is an underlying writer with the io.ReaderFrom fast path (like a real net/http response): it takes the
+// source over itself and reports the source's error together with what it accepted.
+type underRF struct{ *under }
+
+func (u underRF) ReadFrom(src io.Reader) (int64, error) {
+	var n int64
+	buf := make([]byte, 64)
+	for {
+		m, err := src.Read(buf)
+		if m > 0 {
+			u.log = append(u.log, fmt.Sprintf("readfrom %q", buf[:m]))
+			n += int64(m)
+		}
+		if err == io.EOF {
+			return n, nil
+		}
+		if err != nil {
+			return n, err
+		}
+	}
+}
+
+// failingSource delivers "partial" and then fails with an error of its own.
+type failingSource struct{ done bool }
+
+func (s *failingSource) Read(b []byte) (int, error) {
+	if !s.done {
+		s.done = true
+		return copy(b, "partial"), nil
+	}
+	return 0, errors.New("verif: source failed midway")
+}
+
 type custom struct{ s string }
 
 type pv struct {
@@ -120,7 +153,7 @@ var values = []pv{
 	{"net.OpError without syscall error", func() any { return &net.OpError{Op: "read", Net: "tcp", Err: errors.New("broken pipe")} }, false, false},
 }
 
-var progress = []string{"nothing", "hijack-refused", "informational", "header", "header-101", "partial-body", "flushed", "streamed-readfrom", "streamed-iocopy"}
+var progress = []string{"nothing", "hijack-refused", "informational", "header", "header-101", "partial-body", "flushed", "streamed-readfrom", "streamed-iocopy", "failed-fast-copy"}
 var kinds = []string{"route", "route-middleware", "route-ignored-slash", "nested-router", "noroute", "nomethod", "options"}
 
 var sensitive = []string{"Authorization", "Proxy-Authorization", "Cookie", "Set-Cookie", "X-CSRF-Token", "X-Vault-Token"}
@@ -169,6 +202,10 @@ func doPanic(c fox.Context) {
 		_, _ = c.Writer().ReadFrom(&panickingSource{plan: p})
 	case "streamed-iocopy":
 		_, _ = io.Copy(c.Writer(), &panickingSource{plan: p})
+	case "failed-fast-copy":
+		// the first thing the handler does is to stream a source that fails after one chunk, onto an underlying writer
+		// that has the io.ReaderFrom fast path: the chunk went out, the response is started
+		_, _ = io.Copy(c.Writer(), &failingSource{})
 	}
 	if p.value.make == nil {
 		var m map[string]int
@@ -360,6 +397,10 @@ func one(run *kit.Run, f *fox.Router, cap *capture, v pv, pr, kind, hname, secre
 	var escaped any
 	func() {
 		defer func() { escaped = recover() }()
+		if pr == "failed-fast-copy" {
+			f.ServeHTTP(underRF{u}, req)
+			return
+		}
 		f.ServeHTTP(u, req)
 	}()
 	fail := func(class, format string, a ...any) {
@@ -375,13 +416,13 @@ func one(run *kit.Run, f *fox.Router, cap *capture, v pv, pr, kind, hname, secre
 		fail("escaped", "a panic escaped ServeHTTP: %v", escaped)
 	}
 	// client-visible result
-	sent := map[string]string{"nothing": "", "hijack-refused": "", "informational": "header 103", "header": "header 202", "header-101": "header 101", "partial-body": `header 202; body "partial"`, "flushed": "header 200; flush", "streamed-readfrom": `header 200; body "partial"`, "streamed-iocopy": `header 200; body "partial"`}[pr]
+	sent := map[string]string{"nothing": "", "hijack-refused": "", "informational": "header 103", "header": "header 202", "header-101": "header 101", "partial-body": `header 202; body "partial"`, "flushed": "header 200; flush", "streamed-readfrom": `header 200; body "partial"`, "streamed-iocopy": `header 200; body "partial"`, "failed-fast-copy": `readfrom "partial"`}[pr]
 	switch {
 	case v.abort:
 		if log != sent {
 			fail("response", "after re-raising the abort the response must be left as the handler left it (%q), the underlying writer saw %q", sent, log)
 		}
-	case pr == "header" || pr == "header-101" || pr == "partial-body" || pr == "flushed" || pr == "streamed-readfrom" || pr == "streamed-iocopy":
+	case pr == "header" || pr == "header-101" || pr == "partial-body" || pr == "flushed" || pr == "streamed-readfrom" || pr == "streamed-iocopy" || pr == "failed-fast-copy":
 		if log != sent {
 			fail("response", "the response had been started (%q) and must be left untouched, the underlying writer saw %q", sent, log)
 		}
